@@ -4,7 +4,7 @@ import ast
 from ..core import sym
 from ..core.expand import u, call_name, get_arg, bind_args, Expander, is_marker, phi_alternatives
 from ..core.loader import Inconclusive, const_value, parents
-from .common import (guarded_values, returns, all_nodes, callee, strip_shape, calls_in, guards_of, stmt_of, kw, find_assignments, compare_nf,
+from .common import (dispatch_targets, guarded_values, returns, all_nodes, callee, strip_shape, calls_in, guards_of, stmt_of, kw, find_assignments, compare_nf,
                      dict_literal_items, in_loop)
 
 EXPLANATION = (
@@ -389,11 +389,56 @@ def rule_columns(ck):
                              'legitimate event (e.g. origin time 0 = 1970-01-01T00:00:00) would be dropped when it opens a catalog' %
                              '; '.join(u(a)[:60] for a in asg)))
     # header skip only while prev_id is None
-    hdr = [n for n in all_nodes(f) if isinstance(n, ast.Call) and u(n.func) == 'is_header_line' and in_loop(n, f.node) is lp]
+    hdr = [n for n in all_nodes(f) if isinstance(n, ast.Call) and (callee(P, f, n) or '').endswith('is_header_line') and in_loop(n, f.node) is lp]
     o = ck.ob('C12-D4.header', f, hdr[0] if hdr else 'header skip', hdr[0] if hdr else lp)
     ok = len(hdr) == 1 and any(u(t) == 'prev_id is None' and pol for t, pol in guards_of(hdr[0], lp)) and \
         any(isinstance(s, ast.Continue) for s in getattr(stmt_of(hdr[0]), 'body', []))
     (o.ok('only before the first data row') if ok else o.fail('the header line is not skipped exactly while prev_id is None'))
+
+
+def _every_path_yields(block):
+    """does every path through one iteration (the statements of the loop body) yield a catalog or raise, before moving on?"""
+    for i, st in enumerate(block):
+        if isinstance(st, ast.Expr) and isinstance(st.value, (ast.Yield, ast.YieldFrom)):
+            return True
+        if isinstance(st, ast.Raise):
+            return True
+        if isinstance(st, (ast.Continue, ast.Break, ast.Return)):
+            return False
+        if isinstance(st, ast.If):
+            b = _every_path_yields(st.body)
+            ends = bool(st.body) and isinstance(st.body[-1], (ast.Continue, ast.Raise, ast.Return))
+            if st.orelse:
+                if b and _every_path_yields(st.orelse):
+                    return True
+                if not b and ends:
+                    return False
+            else:
+                if ends and not b:
+                    return False
+            # the branch either covered itself and left the iteration, or falls through: go on with the rest
+            continue
+        if isinstance(st, ast.Try):
+            # catalog = next(result) with a StopIteration handler that returns is the end of the stream, not a skipped catalog
+            continue
+    return False
+
+
+def _arms(lp):
+    """the alternative arms of the loop body (branches of a top-level if/elif chain, else the body itself)"""
+    chain = [s_ for s_ in lp.body if isinstance(s_, ast.If)]
+    if len(chain) == 1 and any(isinstance(x, ast.Yield) for x in ast.walk(chain[0])):
+        arms, cur = [], chain[0]
+        while True:
+            arms.append(ast.Module(body=cur.body, type_ignores=[]))
+            if len(cur.orelse) == 1 and isinstance(cur.orelse[0], ast.If):
+                cur = cur.orelse[0]
+                continue
+            if cur.orelse:
+                arms.append(ast.Module(body=cur.orelse, type_ignores=[]))
+            break
+        return arms
+    return [ast.Module(body=lp.body, type_ignores=[])]
 
 
 def rule_dispatch(ck):
@@ -403,23 +448,28 @@ def rule_dispatch(ck):
         f = P.func(q)
         tabs = [n for n in all_nodes(f) if isinstance(n, ast.Assign) and isinstance(n.value, ast.Dict)]
         o = ck.ob('C12-D5.map', f, tabs[0].value if tabs else 'mapping', tabs[0] if tabs else f.node)
-        good = False
-        for t in tabs:
-            items = dict((k, P.canon(f, v)) for k, v in dict_literal_items(t.value))
-            if items.get(key) == L:
-                good = True
+        good = dispatch_targets(P, f, key) == {L}
         (o.ok("'%s' -> CSEPCatalog.load_ascii_catalogs" % key) if good else o.fail("'%s' does not dispatch to CSEPCatalog.load_ascii_catalogs" % key))
     f = P.func('csep.load_stochastic_event_sets')
     o = ck.ob('C12-D5.reyield', f, 're-yields every catalog', f.node)
     wl = [n for n in all_nodes(f) if isinstance(n, ast.While)]
     ok = False
+    fl = [n for n in all_nodes(f) if isinstance(n, ast.For) and isinstance(n.target, ast.Name)]
+    if not wl and len(fl) == 1:
+        # for catalog in result: ... yield catalog  (the iterator protocol does what next()/StopIteration spelled out)
+        lp = fl[0]
+        ys = [x for x in ast.walk(lp) if isinstance(x, ast.Yield)]
+        brk = [x for x in ast.walk(lp) if isinstance(x, (ast.Break, ast.Return))]
+        native = [y for y in ys if u(y.value) == lp.target.id]
+        src = Expander(P, f).expand(lp.iter)
+        ok = bool(native) and not brk and isinstance(src, ast.Call) and _every_path_yields(lp.body)
     if len(wl) == 1 and const_value(wl[0].test) is True:
         ys = [x for x in ast.walk(wl[0]) if isinstance(x, ast.Yield)]
         nx = [x for x in ast.walk(wl[0]) if isinstance(x, ast.Call) and u(x.func) == 'next']
         stops = [h for x in ast.walk(wl[0]) if isinstance(x, ast.Try) for h in x.handlers if u(h.type) == 'StopIteration' and any(isinstance(s, ast.Return) for s in h.body)]
-        brk = [x for x in ast.walk(wl[0]) if isinstance(x, (ast.Break, ast.Continue))]
+        brk = [x for x in ast.walk(wl[0]) if isinstance(x, ast.Break)]
         native = [y for y in ys if u(y.value) == 'catalog']
-        ok = len(nx) == 1 and len(stops) == 1 and native and not brk
+        ok = len(nx) == 1 and len(stops) == 1 and native and not brk and _every_path_yields(wl[0].body)
     (o.ok('while True: catalog = next(result) ... yield') if ok else o.fail('load_stochastic_event_sets no longer forwards every catalog of the file'))
 
 
